@@ -64,7 +64,8 @@ def eval_bool(body, l, infeasible, depth=6):
         if bb in infeasible:
             continue
         if kind == 'call':
-            vals.add('?')
+            # `io_backend.is_in_memory()`: the symbolic value M; `!M` is "true exactly when files are real"
+            vals.add('M' if (payload.get('fn') or '').endswith('IOBackend::is_in_memory') else '?')
             continue
         rv = payload
         if rv['rv'] == 'use':
@@ -77,7 +78,7 @@ def eval_bool(body, l, infeasible, depth=6):
                 vals.add('?')
         elif rv['rv'] == 'unop' and rv['op'] == 'Not' and rv['a']['k'] != 'const' and not rv['a']['pl']['p']:
             inner = eval_bool(body, rv['a']['pl']['l'], infeasible, depth - 1)
-            vals |= {(not v) if isinstance(v, bool) else v for v in inner}
+            vals |= {(not v) if isinstance(v, bool) else {'M': 'notM', 'notM': 'M'}.get(v, v) for v in inner}
         else:
             vals.add('?')
     return vals
@@ -198,7 +199,7 @@ def run(ctx):
             vals = {{'true': True, 'false': False}.get(a.get('v', '').replace('const ', ''), '?')}
         else:
             vals = eval_bool(c.body, a['pl']['l'], in_memory_arm_blocks(c.body))
-        ctx.ob(R1, f'd:Manifest::open@{c.body.root}:fsync-gate', vals == {True},
+        ctx.ob(R1, f'd:Manifest::open@{c.body.root}:fsync-gate', bool(vals) and vals <= {True, 'notM'},
                f'enable_fsync passed to Manifest::open in {c.body.name} must be true whenever the backend is not '
                f'in-memory; possible values on the file-backed paths: {sorted(map(str, vals))}', [site(c.body, c.bb)])
     # e. AddRowSet records are built only after the row-set files are flushed (bootstrap re-adds existing files)
